@@ -34,6 +34,7 @@ class Obligation:
         self.desc = desc
         self.expect_sat = expect_sat      # reachability/vacuity checks: sat is the good outcome
         self.axioms = tuple(axioms)
+        self.defs = {}                    # definitional axioms of opaque spec functions (shared dict of the executor)
         self.status = None                # 'proved' | 'failed' | 'unknown'
         self.backend = None
         self.seconds = 0.0
@@ -337,8 +338,14 @@ NP_INT_DTYPES = {"int8", "int16", "int32", "int64", "uint8", "uint16", "uint32",
 NP_BOOL_DTYPES = {"bool_", "bool", "bool8"}
 
 
+OPAQUE_DEFS = {}
+
+
 class Executor:
+    defs = None
+
     def __init__(self, contract, specmod=None, probe=False):
+        self.defs = {}
         self.c = contract
         self.mod = load_module(contract.module)
         self.fnode = self.mod.funcs.get(contract.qualname)
@@ -365,6 +372,7 @@ class Executor:
         lab = label if n == 0 else "%s~%d" % (label, n)
         o = Obligation(self.c.key, kind, lab, getattr(node, "lineno", None), st.hyps() + list(extra_hyps), goal, desc,
                        axioms=tuple(sorted(self.used_axioms)))
+        o.defs = self.defs
         self.obls.append(o)
         return o
 
@@ -459,7 +467,17 @@ class Executor:
         if spec and name in self.spec_funcs():
             return VFunc("spec:" + name)
         if spec and name in ("isnan", "isfinite", "isinf", "implies", "old", "len", "abs", "min", "max", "int",
-                             "float", "sqrt", "iff", "ite", "all", "any", "range", "floor", "bool"):
+                             "float", "sqrt", "iff", "ite", "all", "any", "range", "floor", "bool", "atan", "atan2", "sin", "cos",
+                             "asin", "exp", "same", "close", "pi", "nan", "inf"):
+            if name == "pi":
+                self.used_axioms.add("pi")
+                return VFloat(xr.fin(xr.PI))
+            if name == "nan":
+                return VFloat(xr.NAN)
+            if name == "inf":
+                return VFloat(xr.PINF)
+            if name in ("same", "close") and name in self.spec_funcs():
+                pass
             return VFunc("builtin:" + name)
         if name in self.mod.imports:
             canon = self.mod.imports[name]
@@ -533,6 +551,9 @@ class Executor:
         v = self.ev(n.operand, st, spec)
         if isinstance(n.op, ast.Not):
             return VBool(z3.Not(to_bool(v, n)))
+        if isinstance(n.op, ast.USub) and isinstance(v, VRef):
+            et = st.heap[v.cell].et
+            return self.amap(st, lambda x: VInt(-x.t) if isinstance(x, VInt) else VFloat(xr.neg(to_float(x))), [v], et, n, spec)
         if isinstance(n.op, ast.USub):
             if isinstance(v, VInt):
                 return VInt(-v.t)
@@ -718,6 +739,49 @@ class Executor:
                         return VFloat(r)
             raise Unsupported("general power", node)
         raise Unsupported("binary op %s" % type(op).__name__, node)
+
+    # ---- element-wise array expressions (Tier 2): arrays as lambda terms
+    def amap(self, st, f, operands, et_out, node, spec=False):
+        refs = [o for o in operands if isinstance(o, VRef)]
+        a0 = st.heap[refs[0].cell]
+        nd = a0.ndim
+        for r in refs[1:]:
+            a = st.heap[r.cell]
+            if a.ndim != nd:
+                raise Unsupported("broadcasting between different ranks", node)
+            if not spec:
+                same = z3.And(*[x == y for x, y in zip(a.shape, a0.shape)])
+                self.oblige(st, "shape", self.line_tag(node), same, node, desc="operands have the same shape")
+        idx = [z3.Int(fresh_name("l")) for _ in range(nd)]
+        elems = []
+        for o in operands:
+            if isinstance(o, VRef):
+                a = st.heap[o.cell]
+                elems.append(self.wrap_elem(a, a.select(idx)))
+            else:
+                elems.append(o)
+        self.suppress += 1          # element-level exceptions do not occur in NumPy array arithmetic
+        try:
+            body = f(*elems)
+        finally:
+            self.suppress -= 1
+        tmp = ArrData(None, a0.shape, et_out)
+        t = self.unwrap_elem(tmp, body, node)
+        for k in reversed(range(nd)):
+            t = z3.Lambda([idx[k]], t)
+        cell = new_cell("amap")
+        st.heap[cell] = ArrData(t, a0.shape, et_out, frozenset(), True)
+        return VRef(cell)
+
+    def array_arith(self, op, a, b, st, node, spec):
+        def f(x, y):
+            if isinstance(op, ast.Div):
+                return VFloat(xr.div(to_float(x), to_float(y)))      # NumPy: IEEE, no exception
+            return self.arith(op, x, y, st, node, True)
+        ets = [st.heap[v.cell].et for v in (a, b) if isinstance(v, VRef)]
+        scal = [v for v in (a, b) if not isinstance(v, VRef)]
+        et = "f" if ("f" in ets or isinstance(op, ast.Div) or any(isinstance(v, VFloat) for v in scal)) else ets[0]
+        return self.amap(st, f, [a, b], et, node, spec)
 
     def raise_if(self, st, cond, exc, node):
         """the current path raises `exc` when cond holds.  With a raises-clause the
@@ -1116,6 +1180,14 @@ class Executor:
         if b == "floor":
             x = to_float(args[0], n)
             return VInt(z3.ToInt(xr.val(x)))
+        if b in ("atan", "sin", "cos", "asin", "exp"):
+            return VFloat(getattr(xr, b)(to_float(args[0], n)))
+        if b == "atan2":
+            return VFloat(xr.atan2(to_float(args[0], n), to_float(args[1], n)))
+        if b in ("same", "close"):
+            # value identity including NaN (exact in the XR model; tolerant only in native replay)
+            x, y = to_float(args[0], n), to_float(args[1], n)
+            return VBool(x == y)
         if b == "print":
             return VNone()
         if b == "range":
@@ -1129,6 +1201,8 @@ class Executor:
 
     def call_spec(self, name, args, st, n):
         fnode = self.spec_funcs()[name]
+        if name in getattr(self.specmod, "OPAQUE", ()) and not getattr(self, "_defining", False):
+            return self.call_opaque(name, fnode, args, st, n)
         sub = st.fork()
         sub.env = {}
         for p, a in zip(fnode.args.args, args):
@@ -1158,6 +1232,74 @@ class Executor:
                 raise Unsupported("spec function %s: incompatible return values" % name, n)
         return res
 
+    def call_opaque(self, name, fnode, args, st, n):
+        """spec function kept opaque: uninterpreted symbol + definitional axiom (instantiated by E-matching
+        only at the ground applications that occur in an obligation)"""
+        sig = []
+        terms = []
+        for a in args:
+            if isinstance(a, VRef):
+                d = st.heap[a.cell]
+                sig.append(("a", d.et, d.ndim))
+                terms.append(d.elems)
+            elif isinstance(a, VFloat):
+                sig.append(("f",))
+                terms.append(a.t)
+            elif isinstance(a, VInt):
+                sig.append(("i",))
+                terms.append(a.t)
+            elif isinstance(a, VBool):
+                sig.append(("b",))
+                terms.append(a.t)
+            else:
+                raise Unsupported("opaque spec arg %r" % (a,), n)
+        key = (name, tuple(sig))
+        if key not in OPAQUE_DEFS:
+            # build the definition once, over bound variables
+            bvars, bvals = [], []
+            tmp = State()
+            tmp.old_heap = {}
+            tmp.entry_env = {}
+            for k, sg in enumerate(sig):
+                if sg[0] == "a":
+                    v = z3.Const("%s!a%d" % (name, k), arr_sort(sg[1], sg[2]))
+                    cell = new_cell("def")
+                    tmp.heap[cell] = ArrData(v, [z3.Int("%s!a%d.s%d" % (name, k, j)) for j in range(sg[2])], sg[1])
+                    bvals.append(VRef(cell))
+                elif sg[0] == "f":
+                    v = z3.Const("%s!a%d" % (name, k), xr.F)
+                    bvals.append(VFloat(v))
+                elif sg[0] == "i":
+                    v = z3.Int("%s!a%d" % (name, k))
+                    bvals.append(VInt(v))
+                else:
+                    v = z3.Bool("%s!a%d" % (name, k))
+                    bvals.append(VBool(v))
+                bvars.append(v)
+            self._defining = True
+            ax_before = set(self.used_axioms)
+            try:
+                body = self.call_spec(name, bvals, tmp, n)
+            finally:
+                self._defining = False
+            ax_used = set(self.used_axioms)
+            if isinstance(body, VFloat):
+                rs, bt = xr.F, body.t
+            elif isinstance(body, VInt):
+                rs, bt = z3.IntSort(), body.t
+            elif isinstance(body, VBool):
+                rs, bt = z3.BoolSort(), body.t
+            else:
+                raise Unsupported("opaque spec result %r" % (body,), n)
+            uf = z3.Function("spec_" + name + "_" + "".join(x[0] for x in sig), *([v.sort() for v in bvars] + [rs]))
+            ax = z3.ForAll(bvars, uf(*bvars) == bt, patterns=[uf(*bvars)])
+            OPAQUE_DEFS[key] = (uf, ax, rs, ax_used)
+        uf, ax, rs, ax_used = OPAQUE_DEFS[key]
+        self.used_axioms |= ax_used
+        self.defs[key] = ax
+        t = uf(*terms)
+        return {xr.F: VFloat, z3.IntSort(): VInt, z3.BoolSort(): VBool}[rs](t)
+
     MATH1 = {"arctan": "atan", "atan": "atan", "sqrt": "sqrt", "sin": "sin", "cos": "cos", "tan": "tan",
              "arcsin": "asin", "asin": "asin", "exp": "exp"}
 
@@ -1169,8 +1311,17 @@ class Executor:
                 if k == "sqrt":
                     self.used_axioms.add("sqrt")
                 return VFloat(getattr(xr, k)(to_float(args[0], n)))
+            if fn in self.MATH1 and isinstance(args[0], VRef):
+                k = self.MATH1[fn]
+                if k == "sqrt":
+                    self.used_axioms.add("sqrt")
+                return self.amap(st, lambda x: VFloat(getattr(xr, k)(to_float(x))), [args[0]], "f", n, spec)
+            if fn in ("arctan2", "atan2") and (isinstance(args[0], VRef) or isinstance(args[1], VRef)):
+                return self.amap(st, lambda x, y: VFloat(xr.atan2(to_float(x), to_float(y))), args[:2], "f", n, spec)
             if fn in ("arctan2", "atan2"):
                 return VFloat(xr.atan2(to_float(args[0], n), to_float(args[1], n)))
+            if fn == "gradient" and isinstance(args[0], VRef) and len(args) == 1 and not kwargs:
+                return self.np_gradient(args[0], st, n, spec)
             if fn in ("isnan",) and not isinstance(args[0], VRef):
                 return VBool(xr.is_nan(to_float(args[0], n)))
             if fn in ("isfinite",) and not isinstance(args[0], VRef):
@@ -1220,6 +1371,33 @@ class Executor:
             if fn == "asarray" or fn == "ascontiguousarray":
                 return args[0]
         raise Unsupported("external call %s" % canon, n)
+
+    def np_gradient(self, ref, st, n, spec):
+        """assumed NumPy contract (DESIGN 3): np.gradient(f) with unit spacing returns one array per axis, in
+        axis order; central differences in the interior, one-sided first differences at the two ends;
+        raises ValueError if an axis has fewer than 2 elements."""
+        a = st.heap[ref.cell]
+        if a.ndim != 2 or a.et != "f":
+            raise Unsupported("np.gradient of non 2-D float array", n)
+        rows, cols = a.shape
+        if not spec:
+            self.raise_if(st, z3.Or(rows < 2, cols < 2), "ValueError", n)
+        i, j = z3.Int(fresh_name("gi")), z3.Int(fresh_name("gj"))
+        half = xr.fin(z3.Q(1, 2))
+
+        def d(hi, lo):
+            return xr.sub(a.select(hi), a.select(lo))
+        g0 = z3.If(i == 0, d([1, j], [0, j]),
+                   z3.If(i == rows - 1, d([rows - 1, j], [rows - 2, j]), xr.mul(d([i + 1, j], [i - 1, j]), half)))
+        g1 = z3.If(j == 0, d([i, 1], [i, 0]),
+                   z3.If(j == cols - 1, d([i, cols - 1], [i, cols - 2]), xr.mul(d([i, j + 1], [i, j - 1]), half)))
+        outs = []
+        for g in (g0, g1):
+            cell = new_cell("grad")
+            st.heap[cell] = ArrData(z3.Lambda([i], z3.Lambda([j], g)), a.shape, "f", frozenset(), True)
+            outs.append(VRef(cell))
+        self.notes.append("assumed: np.gradient = central differences (x 1/2) in the interior, one result per axis in axis order")
+        return VTuple(outs)
 
     def call_method(self, meth, selfv, args, kwargs, st, n, spec):
         if isinstance(selfv, VRef):
@@ -1273,6 +1451,7 @@ class Executor:
                 cst.env[k] = st.env[k]
         cst.guards = list(st.guards)
         sub = Executor(callee, self.specmod)
+        sub.defs = self.defs
         sub.suppress = 1
         # type conformance (shallow)
         for nm, ty in callee.params.items():
@@ -1375,6 +1554,7 @@ class Executor:
 
     def inline_call(self, callee, bound, st, n, spec):
         sub = Executor(callee, self.specmod)
+        sub.defs = self.defs
         sub.obls = self.obls
         sub.suppress = self.suppress
         sub.counter = self.counter
@@ -1516,7 +1696,7 @@ class Executor:
                 st.heap[base.cell] = a.with_elems(const_array(a.et, a.ndim, ev_))
                 return
         if any(isinstance(e, ast.Slice) for e in idx_nodes):
-            raise Unsupported("slice store", node)
+            return self.slice_store(base, a, idx_nodes, v, st, node, spec)
         idx_vals = [self.ev(e, st, spec) for e in idx_nodes]
         if len(idx_vals) == 1 and isinstance(idx_vals[0], VTuple):
             idx_vals = idx_vals[0].items
@@ -1528,6 +1708,45 @@ class Executor:
             # float stored into an integer array truncates (only exact integral values arise in scope)
             v = self.float_to_int(v, st, node, spec)
         st.heap[base.cell] = a.store(idx, self.unwrap_elem(a, v, node))
+
+    def slice_store(self, base, a, idx_nodes, v, st, node, spec):
+        """a[<sel0>, <sel1>] = scalar where each selector is ':' or a tuple of integer constants / an index"""
+        if isinstance(v, VRef) or len(idx_nodes) != a.ndim:
+            raise Unsupported("slice store of array / partial", node)
+        bound = [z3.Int(fresh_name("s")) for _ in range(a.ndim)]
+        conds = []
+        for k, e in enumerate(idx_nodes):
+            if isinstance(e, ast.Slice):
+                if e.lower is not None or e.upper is not None or e.step is not None:
+                    raise Unsupported("bounded slice store", node)
+                continue
+            iv = self.ev(e, st, spec)
+            items = iv.items if isinstance(iv, VTuple) else [iv]
+            terms = self.index_terms_multi(a, k, items, st, node, spec)
+            conds.append(z3.Or(*[bound[k] == t for t in terms]))
+        self.note_write(st, base, node)
+        val = self.unwrap_elem(a, v, node)
+        body = z3.If(z3.And(*conds) if conds else z3.BoolVal(True), val, a.select(bound))
+        t = body
+        for k in reversed(range(a.ndim)):
+            t = z3.Lambda([bound[k]], t)
+        st.heap[base.cell] = a.with_elems(t)
+
+    def index_terms_multi(self, a, k, items, st, node, spec):
+        out = []
+        n = a.shape[k]
+        for iv in items:
+            i = to_int(iv, node)
+            isimp = z3.simplify(i)
+            if z3.is_int_value(isimp) and isimp.as_long() < 0:
+                if not spec:
+                    self.oblige(st, "index", "%s.%d" % (self.line_tag(node), k), -i <= n, node)
+                out.append(n + i)
+            else:
+                if not spec:
+                    self.oblige(st, "index", "%s.%d" % (self.line_tag(node), k), z3.And(i >= 0, i < n), node)
+                out.append(i)
+        return out
 
     def st_Assign(self, s, st, spec):
         v = self.ev(s.value, st, spec)
@@ -1848,6 +2067,10 @@ class Executor:
         for o in outs:
             if o.status in ("run", "continue"):
                 o.status = "run"
+                for j, cexpr in enumerate(ls.cut):
+                    g = self.spec_bool(cexpr, o)
+                    self.oblige(o, "cut", "%s.cut%d" % (tag, j), g, s, desc=cexpr)
+                    o.pc.append(g)
                 nxt = o.fork()
                 if is_for:
                     bind(nxt, iv + step)
@@ -1898,7 +2121,7 @@ class Executor:
             st.pc.append(self.spec_bool(r, st))
         # vacuity: the preconditions are satisfiable
         o = Obligation(self.c.key, "reach", "requires-sat", self.fnode.lineno, st.pc, z3.BoolVal(False),
-                       "preconditions are satisfiable", expect_sat=True, axioms=tuple(sorted(self.used_axioms)))
+                       "preconditions are satisfiable", expect_sat=True, axioms=())
         self.obls.append(o)
         st.old_heap = dict(st.heap)
         outs = self.exec_block(self.fnode.body, st)
@@ -1922,7 +2145,93 @@ class Executor:
         if nret == 0 and self.c.ensures:
             raise ContractMismatch("no returning path in %s" % self.c.key)
         for o_ in self.obls:
-            if not o_.axioms:
-                o_.axioms = tuple(sorted(self.used_axioms))
+            if o_.expect_sat:
+                continue
             o_.axioms = tuple(sorted(set(o_.axioms) | self.used_axioms))
         return self.obls
+
+
+class SpecCtx:
+    """evaluate spec functions symbolically outside any function (for lemmas)"""
+
+    def __init__(self, specmod, axioms=()):
+        dummy = Contract.__new__(Contract)
+        dummy.module = None
+        dummy.qualname = "<lemma>"
+        dummy.params = {}
+        dummy.requires = []
+        dummy.ensures = []
+        dummy.raises = {}
+        dummy.modifies = ()
+        dummy.loops = {}
+        dummy.lets = []
+        dummy.inline = False
+        dummy.axioms = tuple(axioms)
+        dummy.neg_index = False
+        dummy.closure = {}
+        dummy.types = {}
+        dummy.native = None
+        dummy.props = ()
+        self.ex = Executor.__new__(Executor)
+        self.ex.c = dummy
+        self.ex.mod = None
+        self.ex.fnode = None
+        self.ex.obls = []
+        self.ex.suppress = 1
+        self.ex.specmod = specmod
+        self.ex._spec_funcs = None
+        self.ex.loop_nodes = []
+        self.ex.counter = {}
+        self.ex.notes = []
+        self.ex.used_axioms = set(axioms)
+        self.ex.prune = False
+        self.ex.max_paths = 4000
+        self.ex.npaths = 0
+        self.ex.defs = {}
+        self.st = State()
+        self.st.old_heap = {}
+        self.st.entry_env = {}
+
+    def array(self, name, et, ndim, shape=None):
+        cell = new_cell(name)
+        shape = shape or [z3.Int("%s.shape%d" % (name, k)) for k in range(ndim)]
+        self.st.heap[cell] = ArrData(z3.Const(name, arr_sort(et, ndim)), shape, et)
+        return VRef(cell)
+
+    def array_from(self, elems, et, shape):
+        cell = new_cell("arr")
+        self.st.heap[cell] = ArrData(elems, shape, et)
+        return VRef(cell)
+
+    def elems(self, ref):
+        return self.st.heap[ref.cell].elems
+
+    def call(self, name, *args):
+        vals = []
+        for a in args:
+            if isinstance(a, V):
+                vals.append(a)
+            elif isinstance(a, bool):
+                vals.append(VBool(a))
+            elif isinstance(a, int):
+                vals.append(VInt(a))
+            elif isinstance(a, float):
+                vals.append(VFloat(xr.const(a)))
+            elif z3.is_expr(a) and a.sort() == z3.IntSort():
+                vals.append(VInt(a))
+            elif z3.is_expr(a) and a.sort() == xr.F:
+                vals.append(VFloat(a))
+            elif z3.is_expr(a) and a.sort() == z3.BoolSort():
+                vals.append(VBool(a))
+            else:
+                raise Unsupported("spec arg %r" % (a,))
+        return self.ex.call_spec(name, vals, self.st, None)
+
+    def expr(self, src, env):
+        st = self.st.fork()
+        st.env.update(env)
+        return self.ex.spec(src, st)
+
+    @property
+    def axioms(self):
+        return tuple(sorted(self.ex.used_axioms))
